@@ -33,7 +33,7 @@ def run(ctx):
     if c:
         sets.append(("corpus", c))
     if thorough:
-        sets += [("ug", lc.universe(ctx, "ug", 3, 2, 4)), ("ugp", lc.universe(ctx, "ugp", 3, 2, 16, prec=True)),
+        sets += [("ug", lc.universe(ctx, "ug", 3, 2, 4)), ("ugp", lc.universe(ctx, "ugp", 3, 2, 4, prec=True)),
                  ("rnd", lc.random_grammars(ctx, 5000)), ("rndp", lc.random_grammars(ctx, 5000, prec=True, name="rndp"))]
     else:
         sets += [("ug", lc.universe(ctx, "ug", 3, 2, 48)), ("rnd", lc.random_grammars(ctx, 300)),
